@@ -82,4 +82,38 @@ theorem C02_tie_run_no_formula (sys : Sys P) (n : Nat) (s : St P) (v : Nat) (p :
 example : Engine.checkForCycle [((1 : Nat), (5 : Nat)), (2, 5)] 1 5 1 = 1 := by decide
 example : Engine.checkForCycle [((1 : Nat), (4 : Nat)), (2, 5)] 1 5 1 = 2 := by decide
 example : Engine.checkForCycle [((1 : Nat), (4 : Nat)), (2, 5)] 3 5 1 = 0 := by decide
+/-- `holder.delete_arrays(period)` of one marked (variable, period): its storage slot is dropped -/
+def deleteSlot (sys : Sys P) (s : St P) (k : Node P) : St P :=
+  { s with cache := s.cache.filter (fun e => !(e.1 == sys.slot k)) }
+
+theorem foldl_deleteSlot (sys : Sys P) : ∀ (l : List (Node P)) (s : St P),
+    l.foldl (deleteSlot sys) s =
+      { s with cache := s.cache.filter (fun e => !((l.map sys.slot).contains e.1)) } := by
+  intro l
+  induction l with
+  | nil =>
+    intro s; cases s
+    simp only [List.foldl_nil, List.map_nil, List.contains_nil, Bool.not_false]
+    congr 1
+    exact (List.filter_eq_self.mpr (fun _ _ => rfl)).symm
+  | cons k r ih =>
+    intro s
+    rw [List.foldl_cons, ih]
+    simp only [deleteSlot, List.filter_filter, List.map_cons, List.contains_cons]
+    congr 1
+    apply List.filter_congr
+    intro e _
+    cases h1 : (e.1 == sys.slot k) <;> cases h2 : (List.map sys.slot r).contains e.1 <;> simp
+
+/-- **tie**: what a top-level request does after the run — purge when the stack is empty — is what the current
+    source of `Simulation.purge_cache_of_invalid_values` does: nothing while a calculation is in progress, else
+    delete the slot of every marked (variable, period) and reset the marks -/
+theorem C02_tie_purge (sys : Sys P) (s : St P) :
+    (if s.stack = [] then purge sys s else s) =
+      Engine.purge_cache_of_invalid_values s.stack s.inval (deleteSlot sys) (fun st => { st with inval := [] }) s := by
+  unfold Engine.purge_cache_of_invalid_values
+  by_cases h : s.stack = []
+  · simp [h, foldl_deleteSlot, purge]
+  · simp [h]
+
 end OFCore.Engine
